@@ -470,6 +470,9 @@ func mdataMain(args []string) int {
 	nw := fs.Int("wide", 0, "compaction histories with wide slot ranges (above 360 slots)")
 	nr := fs.Int("rollup", 0, "rollup histories")
 	nimg := fs.Int("images", 0, "rollup histories restarted from the image after every manifest commit of the rollup job")
+	nmd := fs.Int("multiday", 0, "rollup histories with several source days rolling up into one target family")
+	nmdimg := fs.Int("multiday-images", 0, "multi-day rollup histories restarted from the image after every manifest commit of the last rollup pass")
+	closeProbe := fs.Bool("closeprobe", false, "observation only: CloseStore of a source store while its rollup job is between two target stores (the process is lost afterwards)")
 	scratch := fs.String("scratch", "", "scratch directory")
 	_ = fs.Parse(args)
 	if *scratch == "" {
@@ -477,7 +480,7 @@ func mdataMain(args []string) int {
 		*scratch = d
 		defer os.RemoveAll(d)
 	}
-	if *nimg > 0 {
+	if *nimg > 0 || *nmdimg > 0 {
 		kvwrap.Install()
 	}
 	rec, err := trace.New(*out)
@@ -487,6 +490,12 @@ func mdataMain(args []string) int {
 	}
 	rng := rand.New(rand.NewSource(*seed))
 	sum := &trace.Summary{Module: "MetricData", Extra: map[string]any{}}
+	if *closeProbe {
+		sum.Extra["closeprobe"] = mdataCloseProbe(rec, filepath.Join(*scratch, "probe"))
+		sum.Print()
+		// the kv store manager's mutex may be held for good: no orderly shutdown
+		os.Exit(0)
+	}
 	for h := 0; h < *nh; h++ {
 		d := filepath.Join(*scratch, fmt.Sprintf("m%d", h))
 		mdataCompactHistory(rec, d, rand.New(rand.NewSource(rng.Int63())), h, sum)
@@ -502,6 +511,14 @@ func mdataMain(args []string) int {
 	for h := 0; h < *nr; h++ {
 		d := filepath.Join(*scratch, fmt.Sprintf("r%d", h))
 		mdataRollupHistory(rec, d, rand.New(rand.NewSource(rng.Int63())), h, sum, h < *nimg)
+		_ = rec.Flush()
+		if os.Getenv("VERIF_KEEP") == "" {
+			os.RemoveAll(d)
+		}
+	}
+	for h := 0; h < *nmd; h++ {
+		d := filepath.Join(*scratch, fmt.Sprintf("d%d", h))
+		mdataMultiDayHistory(rec, d, rand.New(rand.NewSource(rng.Int63())), h, sum, h < *nmdimg)
 		_ = rec.Flush()
 		if os.Getenv("VERIF_KEEP") == "" {
 			os.RemoveAll(d)
